@@ -6,28 +6,39 @@ Import ListNotations.
 Local Open Scope Z_scope.
 
 (* the instrumented node of the harness: identity, kind (0 pure / 1 counts its calls),
-   call count, buffer value; an input buffer shows (value, identity sentinel) *)
-Record znode := { ident : Z; kind : Z; count : Z; val : Z }.
-Definition zbuf := (Z * Z)%type.
-Definition zbufs (w : znode) : zbuf := (val w, ident w).
+   call count, value, number of output buffers (0, 1, 2, ...: a node may have none).
+   What an Input to the node shows: its list of buffers, each (value, identity sentinel). *)
+Record znode := { ident : Z; kind : Z; count : Z; val : Z; nbufs : nat }.
+Definition zbuf := list (Z * Z).
+Definition zbufs (w : znode) : zbuf := repeat (val w, ident w) (nbufs w).
+
+(* what a node reads from one input: the sum of the values in the buffers it shows *)
+Definition bsum (b : zbuf) : Z := fold_right (fun x acc => fst x + acc) 0 b.
 
 Fixpoint wsum (i : Z) (l : list zbuf) : Z :=
-  match l with [] => 0 | b :: t => 3 * i * fst b + wsum (i + 1) t end.
+  match l with [] => 0 | b :: t => 3 * i * bsum b + wsum (i + 1) t end.
 
 Definition znproc (w : znode) (ins : list zbuf) : znode :=
   {| ident := ident w; kind := kind w; count := count w + 1;
-     val := ((ident w + 1) * 7 + 1000 * kind w * count w + wsum 1 ins) mod 65521 |}.
+     val := ((ident w + 1) * 7 + 1000 * kind w * count w + wsum 1 ins) mod 65521;
+     nbufs := nbufs w |}.
 
-Inductive zop := ZN (k : Z) | ZE (a b : Z) | ZR (a : Z) | ZP (o : Z) | ZB | ZQ.
+Inductive zop := ZN (k b : Z) | ZE (a b : Z) | ZR (a : Z) | ZP (o : Z) | ZB | ZQ.
 
 Definition n (z : Z) : nat := Z.to_nat z.
 Definition zn (k : nat) : Z := Z.of_nat k.
 
-Definition enc_inv (i : invocation zbuf) : list Z :=
-  11 :: zn (who i) :: zn (length (from i)) :: map zn (from i) ++ map fst (seen i).
+(* the identity of an input is observable only through the sentinel in its first buffer *)
+Definition enc_from (ub : nat * zbuf) : Z := match snd ub with [] => -1 | _ => zn (fst ub) end.
 
-Definition slot_val (s : option znode) : Z := match s with Some w => val w | None => -1 end.
+Definition enc_inv (i : invocation zbuf) : list Z :=
+  11 :: zn (who i) :: zn (length (from i)) ::
+  map (fun b => zn (length b)) (seen i) ++ map enc_from (combine (from i) (seen i)) ++ map bsum (seen i).
+
+Definition slot_val (s : option znode) : Z :=
+  match s with Some w => (match nbufs w with O => -2 | _ => val w end) | None => -1 end.
 Definition slot_count (s : option znode) : Z := match s with Some w => count w | None => -1 end.
+Definition slot_nbufs (s : option znode) : Z := match s with Some w => zn (nbufs w) | None => -1 end.
 
 Definition zstate := (graph znode * processor)%type.
 
@@ -35,9 +46,9 @@ Definition zstate := (graph znode * processor)%type.
 Definition zstep (st : zstate) (o : zop) : res (zstate * list (list Z)) :=
   let (g, p) := st in
   match o with
-  | ZN k =>
-    let (g1, i) := add_node {| ident := 0; kind := k; count := 0; val := 0 |} g in
-    let g2 := set_weight g1 i {| ident := zn i; kind := k; count := 0; val := 50000 + zn i |} in
+  | ZN k b =>
+    let (g1, i) := add_node {| ident := 0; kind := k; count := 0; val := 0; nbufs := n b |} g in
+    let g2 := set_weight g1 i {| ident := zn i; kind := k; count := 0; val := 50000 + zn i; nbufs := n b |} in
     Ok ((g2, p), [[1; zn i]])
   | ZE a b => let* g' := add_edge (n a) (n b) g in Ok ((g', p), [[2]])
   | ZR a => let (g', r) := remove_node (n a) g in Ok ((g', p), [[3; if r then 1 else 0]])
@@ -45,7 +56,7 @@ Definition zstep (st : zstate) (o : zop) : res (zstate * list (list Z)) :=
     let* r := process zbufs znproc p g (n o) in
     let '(p', g', log) := r in
     Ok ((g', p'), [10; zn (length log)] :: map enc_inv log)
-  | ZB => Ok (st, [12 :: map slot_val (slots g); 13 :: map slot_count (slots g)])
+  | ZB => Ok (st, [12 :: map slot_val (slots g); 13 :: map slot_count (slots g); 16 :: map slot_nbufs (slots g)])
   | ZQ => Ok (st, [14 :: map zn (sources g); 15 :: map zn (sinks g)])
   end.
 
